@@ -74,7 +74,8 @@ Inductive item :=
 | IComment (indent : nat) (text : str) (trail : list nat)   (* indented #text line, then blank lines *)
 | IKV (k : key) (ksp : nat) (v : value) (trail : list nat).
 
-Record block := BK { b_lead : list nat; b_items : list item }.
+(* b_final_nl = false: the text ends without the line break of its last line *)
+Record block := BK { b_lead : list nat; b_items : list item; b_final_nl : bool }.
 
 (* ---------- concrete syntax ---------- *)
 
@@ -141,8 +142,29 @@ Definition print_item (it : item) : str :=
   | IKV k ksp v trail => print_key k ++ sp ksp ++ [58] ++ print_value v ++ bl trail
   end.
 
+(* the last line without its line break (for a key/value item whose value is on the key's line) *)
+Definition print_value_nolf (v : value) : str :=
+  match v with
+  | VNone tsp cm => sp tsp ++ print_comment cm
+  | VFlow vsp f tsp cm => sp vsp ++ print_flow f ++ sp tsp ++ print_comment cm
+  | VBlock _ _ _ _ _ _ _ => print_value v
+  end.
+
+Definition print_item_nolf (it : item) : str :=
+  match it with
+  | IComment n t _ => sp n ++ 35 :: t
+  | IKV k ksp v _ => print_key k ++ sp ksp ++ [58] ++ print_value_nolf v
+  end.
+
+Fixpoint print_items_fin (fin : bool) (items : list item) : str :=
+  match items with
+  | [] => []
+  | [it] => if fin then print_item it else print_item_nolf it
+  | it :: r => print_item it ++ print_items_fin fin r
+  end.
+
 Definition print_block (b : block) : str :=
-  bl (b_lead b) ++ concat (map print_item (b_items b)).
+  bl (b_lead b) ++ print_items_fin (b_final_nl b) (b_items b).
 
 (* ---------- meaning (YAML 1.1, every scalar a string) ---------- *)
 
@@ -379,4 +401,21 @@ Fixpoint wf_adj (items : list item) : bool :=
       negb (eats_indent it && match r with IComment (S _) _ _ :: _ => true | _ => false end) && wf_adj r
   end.
 
-Definition wf_block (b : block) : bool := forallb wf_item (b_items b) && wf_adj (b_items b).
+(* without the final line break the last line is a key/value item with the value (if any) on it *)
+Definition last_ok (it : item) : bool :=
+  match it with
+  | IKV _ _ (VNone _ _) [] => true
+  | IKV _ _ (VFlow _ _ _ _) [] => true
+  | _ => false
+  end.
+
+Fixpoint last_item_ok (items : list item) : bool :=
+  match items with
+  | [] => false
+  | [it] => last_ok it
+  | _ :: r => last_item_ok r
+  end.
+
+Definition wf_block (b : block) : bool :=
+  forallb wf_item (b_items b) && wf_adj (b_items b) &&
+  (b_final_nl b || last_item_ok (b_items b)).
